@@ -119,7 +119,12 @@ impl Dominance for TD {
     type State = DS;
     type Key = u8;
     fn get_key(&self, s: Arc<DS>) -> Option<u8> {
-        Some(s.0)
+        // key 0: a state without dominance key
+        if s.0 == 0 {
+            None
+        } else {
+            Some(s.0)
+        }
     }
     fn nb_dimensions(&self, _: &DS) -> usize {
         2
@@ -190,7 +195,7 @@ fn stores(args: &[String], out: &mut dyn Write) {
             } else if x < 62 {
                 s.push(json!(["clear"]));
             } else if x < 98 {
-                s.push(json!(["q", r.gen_range(0..3), r.gen_range(1..3), r.gen_range(0..4), r.gen_range(0..4), r.gen_range(0..4)]));
+                s.push(json!(["q", r.gen_range(0..3), if r.gen_bool(0.12) { 0 } else { r.gen_range(1..3) }, r.gen_range(0..4), r.gen_range(0..4), r.gen_range(0..4)]));
             } else {
                 s.push(json!(["dclear_layer", r.gen_range(0..3)]));
             }
